@@ -152,9 +152,16 @@ class Prog:
         return True
 
     def plt(self, kind="KNone"):
-        if self.exc:
-            return False
         s, r = self.call_slot(), self.ra()
+        if self.exc:
+            # library call from a landing pad (fix a731947): drops the frames unwound so far like a traced entry
+            if self.extra != 0 or kind not in ("KNone", "KFlush") or not all(x <= s for x in self.stale):
+                return False
+            self.emit("Plt", self.rng.choice(KIND_IDX[kind]), s, r, 0)
+            self.push(s, r, [True])
+            self.exc, self.extra, self.stale = False, 1, []
+            self.tags.add("plt-entry-in-exception")
+            return True
         self.emit("Plt", self.rng.choice(KIND_IDX[kind]), s, r, 0)
         self.push(s, r, [True])
         if kind == "KFlush":
@@ -266,11 +273,9 @@ class Prog:
                 self.tags.add("dead-stack-reused")
             # cleanup landing pad in the frame that is now the newest?
             if self.rng.random() < 0.65:
-                rs_slot = self.call_slot()
-                must = rs_slot in self.stale          # otherwise _Unwind_Resume would hit the C11-1 defect
                 did = False
-                for _k in range(self.rng.randrange(1 if must else 0, 3)):
-                    if self.exc and (must or self.rng.random() < 0.6):
+                for _k in range(self.rng.randrange(0, 3)):
+                    if self.exc and self.rng.random() < 0.5:
                         if self.call():
                             did = True
                             self.small_activity()
@@ -279,19 +284,20 @@ class Prog:
                         self.ucall()
                         self.ret()
                         self.tags.add("untraced-call-in-cleanup")
-                    elif not self.exc:
-                        self.plt()
+                    elif self.plt():
                         self.ret()
                         self.tags.add("plt-call-in-cleanup")
+                # _Unwind_Resume is called at a slot at or above every dropped frame's slot (compiled code: the
+                # frame's call-site slot, i.e. exactly the slot of the child just unwound)
                 rs_slot = self.call_slot()
+                if self.stale and rs_slot < max(self.stale):
+                    rs_slot = self.rng.randrange(max(self.stale), self.top_slot())
                 if rs_slot in self.stale:
-                    if not self.call():
-                        rs_slot = min(self.stale) - 1
-                    else:
-                        self.ret()
-                        did = True
+                    self.tags.add("resume-at-slot-of-unwound-frame")
+                if self.stale:
+                    self.tags.add("resume-with-stale-entries")
                 self.emit("Resume", rs_slot, self.ra())
-                self.exc, self.extra = True, 0
+                self.exc, self.extra, self.stale = True, 0, []
                 self.tags.add("resume")
                 self.tags.add("resume-after-traced-dtor" if did else "resume-without-traced-call")
         self.emit("Catch", self.frames[0]["slot"] - 1)
@@ -369,9 +375,9 @@ def gen_free(rng, n):
 
 
 # dedicated scripts
-WITNESS_RESUME_ALIAS = [      # the cleanup pad of f1 calls _Unwind_Resume at the slot f2's entry still names
+WITNESS_RESUME_ALIAS = [      # regression (fixed by /repo 0bd540c): _Unwind_Resume at the slot of the frame just unwound
     ("Call", 0, 100, 11, 103), ("Call", 1, 90, 12, 99), ("Call", 2, 80, 13, 89),
-    ("Throw",), ("Unwind",), ("Resume", 80, 14)]
+    ("Throw",), ("Unwind",), ("Resume", 80, 14), ("Unwind",), ("Catch", 99), ("Ret", 100)]
 MIXED_CHAIN = [               # PLT function tail-calls a traced function that throws and catches itself
     ("Call", 0, 100, 11, 103), ("Plt", 0, 90, 12, 0), ("TCall", 1, 90, 92), ("Throw",), ("Catch", 89), ("Ret", 90)]
 WITNESS_FENTRY = [            # -mfentry style frame address: the dead callee's entry survives as a phantom parent
@@ -501,7 +507,7 @@ def _eval_chunk(ctx, name, kind, cases, flags):
     defs = "Definition cs : list fcase := [\n%s\n].\n" % ";\n".join(case_coq(o, r) for o, r in cases)
     evals = [("mismatch", "bad_indices fagree cs 0")]
     if kind == "legal":
-        evals += [("violations", "bad_indices fok cs 0"), ("illegal", "bad_indices flegal cs 0")]
+        evals += [("violations", "bad_indices fok2 cs 0"), ("illegal", "bad_indices flegal cs 0")]
     if flags is not None:
         defs += "Definition plt_flags : list (skind * N) := %s.\n" % flags_term(flags)
         evals.append(("flags_bad", "bad_indices (fun p => kind_flags (fst p) =? snd p) plt_flags 0"))
@@ -575,7 +581,7 @@ class E2EGen:
     """generates one deterministic C or C++ program by simulating its execution; everything the
     ground truth needs (depth of every call, order of setjmp/longjmp) is logged by the program itself"""
 
-    def __init__(self, rng, lang, allow_old_jmpbuf=False):
+    def __init__(self, rng, lang, allow_old_jmpbuf=True):
         self.rng = rng
         self.lang = lang
         self.funcs = []            # (name, body lines, is_tail)
@@ -649,9 +655,10 @@ class E2EGen:
                 if term == ("throw",):
                     self.tags.add("catch")
                     lines.append(ind + "} catch (int ev_) { D = sd_; logline(\"C\", \"catch\", ev_);")
-                    # calls made by the handler must not throw past it (that is the _Unwind_Resume defect class);
-                    # the handler itself may rethrow
-                    hb, term2 = self.gen_body(depth, active_jbs, 0, in_thread, ind + "\t")
+                    # calls made by the handler may throw past it (regression class of fix 0bd540c)
+                    hb, term2 = self.gen_body(depth, active_jbs, in_try, in_thread, ind + "\t")
+                    if term2 == ("throw",):
+                        self.tags.add("throw-past-catch-handler")
                     lines += hb
                     if not term2 and in_try > 0 and rng.random() < 0.3:
                         self.tags.add("rethrow")
@@ -688,6 +695,10 @@ class E2EGen:
                 fn, term = self.gen_func(0, [], 0, True, thread_root=True)
                 lines.append(ind + "{ pthread_t t_; pthread_create(&t_, NULL, th_main, NULL); pthread_join(t_, NULL); }")
                 self.thread_entry = fn
+            elif x < 0.93 and in_thread and depth >= 1 and self.lang == "c":
+                self.tags.add("pthread_exit-nested-%d" % min(depth, 3))
+                lines.append(ind + "pthread_exit(NULL);")
+                return lines, ("texit",)
             elif x < 0.95 and not in_thread and depth >= 2 and in_try == 0:
                 self.tags.add("exit-nested")
                 lines.append(ind + "exit(%d);" % rng.randrange(0, 40))
@@ -786,6 +797,24 @@ __attribute__((noinline)) void mid(int x)
 	catch (int e) { sink += e; thrower(2); }      /* a callee of the handler throws past it */
 }
 int main() { try { mid(1); } catch (int e) { sink += 10 * e; } printf("%d\n", sink); return 0; }
+"""
+
+E2E_WITNESS_PAD_LIBCALL = r"""
+#include <stdio.h>
+int exception = 1;
+struct A { A() { if (exception) throw 42; } };
+void f() { static A a; puts("f: after static init (no exception)"); }       /* pad calls __cxa_guard_abort@plt */
+int main() { try { f(); puts("main: f returned normally"); } catch (int d) { printf("main: caught %d\n", d); } return 0; }
+"""
+
+E2E_WITNESS_PAD_LIBCALL_DEPTH = r"""
+#include <cstdio>
+volatile int sink;
+struct G { int v; G() : v(1) {} ~G() { puts("dtor"); } };          /* inlined at -O2: the pad calls puts@plt */
+__attribute__((noinline)) void t3(int x) { sink += 1; if (x) throw 7; sink += 2; }
+__attribute__((noinline)) void t2(int x) { G g; sink += 3; t3(x); sink += 4; }
+__attribute__((noinline)) void t1(int x) { try { t2(x); } catch (int e) { sink += e; } }
+int main() { t1(1); printf("%d\n", sink); return 0; }
 """
 
 E2E_WITNESS_PTHREAD_EXIT_C = r"""
@@ -968,7 +997,7 @@ def judge_e2e(obs):
                 else:
                     es.append("SEntry SNormal")
             else:
-                es.append("SExit")
+                es.append("SExit %d" % dep)
         if ok and len(es) < 3000:
             stream = (es, [d for _, d in rp[main_tid]])
     return probs, stream
@@ -978,7 +1007,7 @@ def run_e2e(ctx, objdir):
     from concurrent.futures import ThreadPoolExecutor
     rng = ctx.rng
     cases = []
-    for i in range(ctx.n(24, 260)):
+    for i in range(ctx.n(24, 600)):
         lang = "c" if i % 5 < 3 else "c++"
         g = E2EGen(rng, lang)
         src = g.source()
@@ -1002,6 +1031,11 @@ def run_e2e(ctx, objdir):
         {"name": "w_pexit_cpp", "src": E2E_WITNESS_PTHREAD_EXIT_CPP, "lang": "c++", "flags": ["-pg", "-O0"], "key": "pthread-exit-destructors",
          "what": "pthread_exit in a traced C++ thread: the forced unwind stops at the hijacked return address of pthread_exit, "
                  "destructors of the live frames do not run (the program computes a different result)"},
+        {"name": "w_padcall", "src": E2E_WITNESS_PAD_LIBCALL, "lang": "c++", "flags": ["-pg", "-O0"], "key": "landing-pad-libcall-swallows-exception",
+         "what": "a library function called from a landing pad (__cxa_guard_abort after a throwing static initialiser) was pushed on top "
+                 "of the stale entry of the unwound constructor; the unwinder then continued after the throwing call: exception swallowed"},
+        {"name": "w_paddepth", "src": E2E_WITNESS_PAD_LIBCALL_DEPTH, "lang": "c++", "flags": ["-pg", "-O2"], "key": "landing-pad-libcall-depth",
+         "what": "a library function called by an inlined destructor in a cleanup pad was shown as a child of the function just unwound"},
         {"name": "w_maxstack", "src": E2E_WITNESS_MAX_STACK, "lang": "c", "flags": ["-pg", "-O0"], "key": "setjmp-beyond-rstack-max",
          "record_opts": ["--max-stack=2000"],
          "what": "setjmp with more than MCOUNT_RSTACK_MAX (1024) shadow-stack entries under --max-stack=2000: the snapshot array "
@@ -1041,6 +1075,13 @@ def run_e2e(ctx, objdir):
     wprobs = {}
     for w in witnesses:
         probs, stream = judge_e2e(wres[w["name"]])
+        if w["name"] == "w_paddepth" and not probs:
+            # main(0) t1(1) t2(2): puts() is called from t2's cleanup pad, true depth 3, after t3 was closed
+            for ents in wres[w["name"]].get("replay", {}).values():
+                names = [n for n, d in ents]
+                ds = [d for n, d in ents if n == "puts"]
+                if ds and ds != [3]:
+                    probs.append(("depth", "puts() called from t2's cleanup pad is shown at depth %s, true depth 3" % ds))
         if w["name"] == "w_fentry" and not probs:
             # main(0) t1(1) t2(2): the destructor of t2's guard runs in t2's cleanup pad, true depth 3
             for ents in wres[w["name"]].get("replay", {}).values():
@@ -1062,12 +1103,10 @@ def run_e2e(ctx, objdir):
             ctx.extra["replay_streams_checked"] = len(streams)
             for i in vv:
                 c = streams[i][0]
-                if c.get("key") == "replay-older-jmpbuf":
-                    continue            # judged below as the dedicated witness
                 ctx.violation("C11 violated: the depths `uftrace replay` shows differ from the true depths of the record stream "
                               "(ok_replay_entries rejects the implementation's output)",
                               {"mode": "e2e-replay", "program": c["src"], "flags": c["flags"]}, True)
-            if mm and not [i for i in vv if streams[i][0].get("key") != "replay-older-jmpbuf"]:
+            if mm and not vv:
                 c = streams[mm[0]][0]
                 ctx.violation("replay model and `uftrace replay` disagree on %d record stream(s)" % len(mm),
                               {"mode": "e2e-replay", "correspondence": "C11.Model.rp_run vs uftrace replay",
@@ -1116,15 +1155,15 @@ def has_nonlocal(ops):
 
 def run_inproc(ctx, objdir):
     h = Harness(ctx, objdir)
-    progs = [({"corpus"}, c) for c in CORPUS]
-    for i in range(ctx.n(150, 2500)):
+    progs = [({"corpus"}, c) for c in CORPUS + [WITNESS_RESUME_ALIAS]]
+    for i in range(ctx.n(150, 6000)):
         tags = set()
         realistic = ctx.rng.random() < 0.6
         tags.add("slots:call-site" if realistic else "slots:free")
         ops = Prog(ctx.rng, tags, realistic).run(ctx.rng.choice([15, 30, 50, 70]))
         progs.append((tags, ops))
-    frees = [MIXED_CHAIN, WITNESS_RESUME_ALIAS, WITNESS_FENTRY]
-    for i in range(ctx.n(200, 3000)):
+    frees = [MIXED_CHAIN, WITNESS_FENTRY]
+    for i in range(ctx.n(200, 5000)):
         frees.append(gen_free(ctx.rng, ctx.rng.choice([8, 20, 40])))
     flags, results = h.run_many([ops for _, ops in progs] + frees)
     legal = [(ops, res) for (_, ops), res in zip(progs, results)]
@@ -1136,6 +1175,11 @@ def run_inproc(ctx, objdir):
     for ops, res in free:
         ctx.case(key=("free", tuple(ops)), nontrivial=has_nonlocal(ops),
                  tags=["inproc:free", "inproc:free-crash" if res["crashed"] else "inproc:free-complete"], size=len(ops))
+    # listed in-process finding: the mixed PLT/mcount tail-call chain (free[0]) still ends the process?
+    ctx.known_finding("rehook-mixed-chain",
+                      "a tail-call chain mixing a PLT entry and an mcount entry is re-hooked with the trampoline of the oldest "
+                      "entry: plthook_exit `invalid dynsym idx` ends the process", bool(free[0][1]["crashed"]),
+                      {"mode": "inproc", "case": case_json(free[0][0], free[0][1])})
     ev = evaluate_inproc(ctx, legal, free, flags)
     if ev is None:
         return None
@@ -1149,7 +1193,8 @@ def run_inproc(ctx, objdir):
         ctx.violation("C11 violated in-process: after non-local control flow a return (or the second return of "
                       "setjmp, or the unwinder's resume address) does not reach its real caller / the number of "
                       "exit hooks differs from the number of hooked functions sharing the frame / an ENTRY record "
-                      "carries a depth other than the number of live traced functions",
+                      "carries a depth other than the number of live traced functions / the written record stream is "
+                      "not a faithful stream (replay would not show every record at its depth)",
                       {"mode": "inproc", "case": case_json(ops, res)}, True)
     mism = [("legal", i) for i in ev["mismatch_legal"]] + [("free", i) for i in ev["mismatch_free"]]
     if ev["flags_bad"]:
